@@ -35,6 +35,10 @@ def oracle(rec):
     bad = reset_oracle(rec)
     if bad:
         return bad
+    for line, o in zip(rec["lines"], rec["impl"]):
+        if line.startswith("fget ") and o and "CREATED-ROW" in o:
+            return {"problem": "a query left a trace: get_data/state of a grounding created a row in the formula's table", "query": line,
+                    "contradictory_data": False, "quantified": False, "query_trace": True}
     ts = [t for t in tabs_of(rec) if t[1].startswith("finfer")]
     if len(ts) < 2:
         return None
@@ -93,6 +97,11 @@ def run(rep, tier, seed):
             mid = list(p["ops"])
             if rng.random() < 0.5:
                 mid.insert(rng.randint(0, len(mid)), ("print",))
+            for _ in range(rng.choice([0, 1, 2])):
+                # state / bounds queries between the runs, also of constants the formula has never seen
+                pd = rng.choice(p["kb"]["preds"])
+                g = [rng.choice([p["n_consts"], rng.randrange(p["n_consts"])]) for _ in range(pd["arity"])]
+                mid.insert(rng.randint(0, len(mid)), ("get", pd["id"], g))
             p["ops"] = [("infer", 60)] + mid + [("resetb",), ("infer", 60)]
         if not quant:
             progs = cprogs + progs
